@@ -131,7 +131,25 @@ func runC02(c *Ctx) {
 			}
 			in := s.Instr.(ssa.Instruction)
 			if !li.localOf(regFn)[in].holds(class, 'W') {
-				continue // not locked here: the caller's lock (if any) covers test and write alike
+				// not locked in this function: when every caller holds the lock over the whole call,
+				// the test and the writes inside it are one critical section
+				if li.heldAt(in).holds(class, 'W') {
+					okTest := false
+					for _, l := range ei.sitesWith(regFn, getChain) {
+						v := errVerdict(l.Instr)
+						if v == nil || !l.pureLookup() {
+							continue
+						}
+						for _, e := range edgesOfVerdict(v).Reject {
+							if edgeDominates(e, in.Block()) {
+								okTest = true
+							}
+						}
+					}
+					c.check(okTest, "D6", fnName(regFn)+"+atomic-register@"+calleeLabel(s), posOf(s.Instr),
+						"the 'not registered yet' test guarding this write is made in the same function, which every caller runs under "+class, "the write is not guarded by a 'not registered yet' test made inside the critical section (the function runs under "+class+" taken by its callers)")
+				}
+				continue // no lock at all here: D2 and C09.D3 judge the callers
 			}
 			okAtomic := false
 			for _, l := range ei.sitesWith(regFn, getChain) {
